@@ -25,13 +25,15 @@ func init() {
 			"(description, reference, default, mandatory, presence, must, min/max-elements), augment inside uses, module-level augment into the own and into imported modules, " +
 			"when / if-feature / status on uses and augment, diamond use of one grouping through two others; the harness expands every uses/refine/augment at source level and both " +
 			"texts are compiled with the same random subset of enabled features: the canonical dumps must be equal after the namespace/module of augmenting nodes is mapped to the " +
-			"augmenting module (asserted separately on the factored dump); injected sibling name clashes must be rejected; distinct_nontrivial = distinct factored texts with at least one uses or augment",
+			"augmenting module (asserted separately on the factored dump); injected sibling name clashes must be rejected; in half of the cases the body statements of every module are " +
+			"permuted (groupings after their first use), one case in ten is a fixed forward-reference nest (uses two and three levels inside a grouping that is defined after its use), and for one case " +
+			"in three the self-contained groupings and typedefs of the first module are moved into a submodule it includes and the set is compiled again: nothing but the submodule attribution may change; distinct_nontrivial = distinct factored texts with at least one uses or augment",
 		block: 8,
 		assumptions: []string{
 			"the source-level expander (inline.go) implements RFC 6020 7.12 / 7.15: clone the grouping's data definitions, apply refine and uses-augment, copy when/if-feature/status of the uses or augment onto every node it introduces",
 			"XPath expressions inside groupings carry no prefixes here (prefix scope is C15's subject); the evaluation context of an augment's when (RunAsParent) is compared as a flag only",
 		},
-		minEvents: []string{"pairs_compiled", "uses_expanded", "refines_applied", "module_augments_applied", "uses_augments_applied", "dumps_compared", "clash_sets"},
+		minEvents: []string{"pairs_compiled", "uses_expanded", "refines_applied", "module_augments_applied", "uses_augments_applied", "dumps_compared", "clash_sets", "submodule_variants_compiled"},
 	}})
 }
 
@@ -75,6 +77,17 @@ func c12Gen(seed int64, idx int) c12Case {
 			yang.S("grouping", "dia-a", yang.S("uses", "dia-b"), yang.S("uses", "dia-c")),
 			yang.S("container", "dia-use", yang.S("uses", "dia-a")))
 		yang.SortSections(m)
+	case 5:
+		// forward references: the uses stands before the grouping it names, and that grouping reaches
+		// further groupings two and three levels down (container > list > uses, choice > case > uses)
+		m.Add(yang.S("container", "fw-use", yang.S("uses", "fw-outer", yang.S("refine", "fc/fl/fa", yang.S("default", "refined")))),
+			yang.S("grouping", "fw-outer",
+				yang.S("container", "fc", yang.S("list", "fl", yang.S("key", "fk"), yang.S("leaf", "fk", yang.S("type", "string")), yang.S("uses", "fw-inner"))),
+				yang.S("choice", "fch", yang.S("case", "one", yang.S("container", "deep", yang.S("uses", "fw-inner2"))), yang.S("case", "two", yang.S("leaf", "t", yang.S("type", "int8"))))),
+			yang.S("grouping", "fw-inner", yang.S("leaf", "fa", yang.S("type", "string")), yang.S("container", "fin", yang.S("uses", "fw-inner2"))),
+			yang.S("grouping", "fw-inner2", yang.S("leaf", "fb", yang.S("type", "uint8"))))
+		yang.SortSections(m)
+		c12Shuffle(r, m, true)
 	case 7:
 		// sibling clash introduced by uses / augment
 		c.clash = true
@@ -92,7 +105,46 @@ func c12Gen(seed int64, idx int) c12Case {
 		}
 		yang.SortSections(m)
 	}
+	// the order of the body statements of a module carries no meaning: in half of the cases it is
+	// permuted, so that groupings, typedefs and augments are also met after their first use
+	if idx%2 == 1 {
+		for _, mod := range ms.Mods {
+			c12Shuffle(r, mod, false)
+		}
+	}
 	return c
+}
+
+// c12Shuffle permutes the body statements (section 4) of a module; usesFirst moves the data
+// nodes in front of the groupings instead.
+func c12Shuffle(r *core.Rng, m *yang.Stmt, usesFirst bool) {
+	var head, body []*yang.Stmt
+	for _, k := range m.Kids {
+		if yang.Section(k.Kw) == 4 {
+			body = append(body, k)
+		} else {
+			head = append(head, k)
+		}
+	}
+	if usesFirst {
+		var data, defs []*yang.Stmt
+		for _, k := range body {
+			if k.Kw == "grouping" || k.Kw == "typedef" {
+				defs = append(defs, k)
+			} else {
+				data = append(data, k)
+			}
+		}
+		body = append(data, defs...)
+	} else {
+		perm := r.Perm(len(body))
+		nb := make([]*yang.Stmt, len(body))
+		for i, pi := range perm {
+			nb[i] = body[pi]
+		}
+		body = nb
+	}
+	m.Kids = append(head, body...)
 }
 
 func textsString(texts map[string]string) string {
@@ -215,11 +267,126 @@ func (p *c12) Run(tier string, seed int64, idx int) core.CaseResult {
 	if fd != id {
 		res.Fail("C12/schema-differs-from-inline-definition", both, firstDiff(id, fd)+"\n(- inlined, + factored)")
 	}
+	// the definitions of the first module moved into a submodule it includes: the groupings are then
+	// defined in the submodule and used from the module; nothing but the submodule attribution may change
+	if idx%3 == 0 {
+		if sp := c12SplitIntoSubmodule(c.ms); sp != nil {
+			stexts := sp.Texts(nil)
+			sr := compileTexts(stexts, nil, feats, nil, true)
+			res.Ev("submodule_variants_compiled", 1)
+			sboth := input + "\n======== definitions moved into a submodule ========\n" + textsString(stexts)
+			switch {
+			case sr.Panic != "":
+				res.Fail("C12/submodule-variant/panic/"+core.TopRepoFrame(sr.Stack), sboth, sr.Panic)
+			case sr.ParseErr != "":
+				res.Fail("harness-panic", sboth, "submodule variant does not parse: "+sr.ParseErr)
+			case !sr.Accepted():
+				res.Fail("C12/submodule-variant/rejected", sboth, sr.Err)
+			default:
+				strip := func(root *dump.DNode) string {
+					return root.StringWith(func(n *dump.DNode, a string) string {
+						if m := nsAttrRe.FindStringSubmatch(a); m != nil {
+							return "ns=" + m[1] + " module=" + m[2]
+						}
+						if strings.HasPrefix(a, "submodules=") {
+							return "submodules=*"
+						}
+						// (a typedef is named after the text unit that holds it)
+						return strings.ReplaceAll(a, "{"+c.ms.Mods[0].Arg+"-defs}", "{"+c.ms.Mods[0].Arg+"}")
+					})
+				}
+				if a, b := strip(fr.DumpRoot), strip(sr.DumpRoot); a != b {
+					res.Fail("C12/submodule-variant/schema-differs", sboth, firstDiff(a, b)+"\n(- all in the module, + definitions in a submodule)")
+				}
+			}
+		}
+	}
 	if idx%151 == 0 {
 		res.Sample = map[string]interface{}{"modules": len(c.ms.Mods), "uses": info.NUses, "refines": info.NRefines, "uses_augments": info.NUsesAugments,
 			"module_augments": info.NAugments, "dump_nodes": fr.DumpRoot.Count()}
 	}
 	return res
+}
+
+// c12SplitIntoSubmodule: a copy of the set in which groupings and typedefs of the first module live in a
+// submodule that the module includes (nil if nothing can be moved).  Only definitions that refer to no
+// feature or identity, and to no grouping or typedef that stays behind, are moved: whether a YANG 1
+// submodule may refer to definitions of its parent module is not settled by RFC 6020, and the repository
+// does not resolve pfx:feature / pfx:identity references of importing modules into a submodule, which is
+// outside C12's statement.
+func c12SplitIntoSubmodule(ms *yang.ModSet) *yang.ModSet {
+	out := ms.Clone()
+	m := out.Mods[0]
+	if m.Kw != "module" || m.Find("include") != nil {
+		return nil
+	}
+	own := m.Find("prefix").Arg + ":"
+	movable := map[string]bool{} // "grouping/<name>" "typedef/<name>"
+	for _, k := range m.Kids {
+		if k.Kw == "grouping" || k.Kw == "typedef" {
+			movable[k.Kw+"/"+k.Arg] = true
+		}
+	}
+	builtin := map[string]bool{"string": true, "boolean": true, "empty": true, "enumeration": true, "union": true, "decimal64": true, "leafref": true, "bits": true, "binary": true,
+		"int8": true, "int16": true, "int32": true, "int64": true, "uint8": true, "uint16": true, "uint32": true, "uint64": true}
+	refsOK := func(k *yang.Stmt) bool {
+		ok := true
+		k.Walk(func(s *yang.Stmt, _ int) {
+			switch s.Kw {
+			case "if-feature", "base":
+				ok = false
+			case "uses", "type":
+				ref, kind := strings.TrimPrefix(s.Arg, own), "grouping"
+				if s.Kw == "type" {
+					kind = "typedef"
+					if builtin[ref] {
+						return
+					}
+					if ref == "identityref" || ref == "instance-identifier" {
+						ok = false
+						return
+					}
+				}
+				if strings.Contains(ref, ":") {
+					return // a definition of an imported module
+				}
+				if !movable[kind+"/"+ref] {
+					ok = false
+				}
+			}
+		}, 0)
+		return ok
+	}
+	for changed := true; changed; {
+		changed = false
+		for _, k := range m.Kids {
+			if (k.Kw == "grouping" || k.Kw == "typedef") && movable[k.Kw+"/"+k.Arg] && !refsOK(k) {
+				delete(movable, k.Kw+"/"+k.Arg)
+				changed = true
+			}
+		}
+	}
+	if len(movable) == 0 {
+		return nil
+	}
+	sub := yang.S("submodule", m.Arg+"-defs", yang.S("belongs-to", m.Arg, yang.S("prefix", m.Find("prefix").Arg)))
+	for _, imp := range m.FindAll("import") {
+		sub.Add(imp.Clone())
+	}
+	var keep []*yang.Stmt
+	for _, k := range m.Kids {
+		if movable[k.Kw+"/"+k.Arg] {
+			sub.Add(k)
+		} else {
+			keep = append(keep, k)
+		}
+	}
+	m.Kids = keep
+	m.Add(yang.S("include", sub.Arg))
+	yang.SortSections(m)
+	yang.SortSections(sub)
+	out.Mods = append(out.Mods, sub)
+	return out
 }
 
 func (p *c12) Witness(raw json.RawMessage) []core.Failure { return nil }
